@@ -42,6 +42,9 @@ func planFor(prop string) staticPlan {
 	base := "cases = seeded scratch modules (dependency packages with colliding names/paths, multi-file source package, random interfaces over the full type grammar) x sampled flag/destination/formatter vectors, each run through the real moq binary built from /repo and type-checked in its destination; distinct = distinct (name-free interface shape, configuration) pairs; non-trivial = "
 	switch prop {
 	case "C01":
+		crlf := gen.ProfGeneral
+		crlf.Name, crlf.CRLF = "general-crlf", true
+		p.profiles = []gen.Profile{gen.ProfGeneral, gen.ProfImports, gen.ProfNaming, gen.ProfGeneric, crlf}
 		p.rule = base + "at least one method"
 	case "C02":
 		o.ForceSkip = 0.5
@@ -96,9 +99,9 @@ func matrixFor(prop string) []string {
 	case "C01":
 		return gen.MatrixKinds
 	case "C12":
-		return []string{"reserved", "numbered", "derived", "initialisms"}
+		return []string{"reserved", "numbered", "derived", "initialisms", "stale"}
 	case "C13":
-		return []string{"initialisms", "derived", "numbered", "stale"}
+		return []string{"initialisms", "derived", "numbered", "stale", "reserved"}
 	case "C11", "C09", "C10", "C02", "C20":
 		return []string{"stale"}
 	}
